@@ -33,6 +33,9 @@ class Evaluator:
         self.ordered_ids = set()
         self.in_progress = set()
         self.keep = []          # every dict built stays alive, so that ids in ordered_ids are never reused
+        # dicts in which two equal keys of different types met (1 / 1.0 / true): which key object survives is a matter of
+        # Python's dict and not of the property; everywhere else a key has the type its own node gives it
+        self.lenient_ids = set()
 
     def scalar(self, node):
         tag, text = node.tag, node.value
@@ -77,6 +80,13 @@ class Evaluator:
             raise RefError("unhashable key")
         return v
 
+    @staticmethod
+    def _same_key(d, k):
+        for x in d:
+            if x == k:
+                return x
+        return k
+
     def entries(self, node):
         """Effective entries of a mapping node: list of (key value, value node) with dict semantics, plus has_merge."""
         if node.id != "mapping":
@@ -95,6 +105,8 @@ class Evaluator:
                     if kv in own:
                         # a shadowed occurrence is still part of the document: an ill-shaped value there is an error
                         self.value(own[kv])
+                        if type(self._same_key(own, kv)) is not type(kv):
+                            self.mixed = True
                     own[kv] = value_node
             inherited = {}
             for mv in merges:                           # a later merge key overrides an earlier one
@@ -113,10 +125,14 @@ class Evaluator:
                     for k, v in sub.items():
                         if k in contrib:
                             self.value(contrib[k])
+                            if type(self._same_key(contrib, k)) is not type(k):
+                                self.mixed = True
                     contrib.update(sub)
                 for k, v in contrib.items():
                     if k in inherited:
                         self.value(inherited[k])
+                        if type(self._same_key(inherited, k)) is not type(k):
+                            self.mixed = True
                 inherited.update(contrib)
             result = dict(own)
             for k, v in inherited.items():
@@ -124,6 +140,8 @@ class Evaluator:
                     result[k] = v
                 else:
                     self.value(v)       # shadowed by an own key, but must still be well-formed
+                    if type(self._same_key(own, k)) is not type(k):
+                        self.mixed = True
             return result, bool(merges)
         finally:
             self.in_progress.discard(id(node))
@@ -151,14 +169,22 @@ class Evaluator:
             raise RefError("sequence with tag %s" % tag)
         if node.id == "mapping":
             if tag == T + "map":
+                outer = getattr(self, "mixed", False)
+                self.mixed = False
                 ent, has_merge = self.entries(node)
+                mixed = self.mixed
+                self.mixed = outer          # the flag of an enclosing evaluation survives nested ones
                 d = {k: self.value(v) for k, v in ent.items()}
                 self.keep.append(d)
+                if mixed:
+                    self.lenient_ids.add(id(d))
                 if not has_merge:
                     self.ordered_ids.add(id(d))
                 return d
             if tag == T + "set":
+                outer = getattr(self, "mixed", False)
                 ent, _ = self.entries(node)
+                self.mixed = outer
                 for v in ent.values():
                     self.value(v)       # the values of a set are ignored but must be well-formed
                 return set(ent)
@@ -176,6 +202,7 @@ def evaluate(node):
         return None, ev.ordered_ids
     v = ev.value(node)
     ev.ordered_ids.add(("keepalive", id(ev.keep)))
+    ev.ordered_ids.add(("lenient", frozenset(ev.lenient_ids)))
     _ALIVE.append(ev.keep)
     del _ALIVE[:-4]
     return v, ev.ordered_ids
